@@ -46,17 +46,18 @@ class WebSocketCodec(BaseComponent):
         self._close_received = False
         self._close_sent = False
         self._buffer = bytearray()
-
-        messages = self._parse_messages(bytearray(data))
-        for message in messages:
-            if self._sock is not None:
-                self.fire(read(self._sock, message))
-            else:
-                self.fire(read(message))
+        # decoded once the codec is registered: replies (pong, close) have to reach the parent
+        self._initial_data = bytearray(data)
 
     @handler('registered')
     def _on_registered(self, component, parent):
         if component is self:
+            data, self._initial_data = self._initial_data, bytearray()
+            for message in self._parse_messages(data):
+                if self._sock is not None:
+                    self.fire(read(self._sock, message))
+                else:
+                    self.fire(read(message))
 
             @handler('read', priority=10, channel=parent.channel)
             def _on_read_raw(self, event, *args):
